@@ -35,7 +35,7 @@ Definition io_holds_r (p : iopc) : bool :=
   match p with
   | IoRcv1 _ _ | IoRcv2 _ _ | IoRcvLoop _ _ | IoRcvApp _ _ | IoRcvAdd _ _
   | IoScA _ _ | IoSc1 _ _ | IoScF _ _ | IoScRel _ _ | IoScX1 | IoScX2 | IoRcvRel _ => true
-  | IoHCb k | IoHCc k | IoHCd k | IoHCe k | IoHCx k => hc_is_sc k
+  | IoHC k | IoHCb k | IoHCc k | IoHCd k | IoHCe k | IoHCx k => hc_is_sc k
   | _ => false
   end.
 (* inside the unlocked _flush_some of handle_write *)
@@ -45,7 +45,7 @@ Definition io_uflush (p : iopc) : bool :=
 Definition io_sc (p : iopc) : bool :=
   match p with
   | IoScA _ _ | IoSc1 _ _ | IoScF _ _ | IoScRel _ _ | IoScX1 => true
-  | IoHCb k | IoHCc k | IoHCd k | IoHCe k | IoHCx k => hc_is_sc k
+  | IoHC k | IoHCb k | IoHCc k | IoHCd k | IoHCe k | IoHCx k => hc_is_sc k
   | _ => false
   end.
 (* handle_close has cleared connected and not yet removed the channel from the map *)
